@@ -441,3 +441,108 @@ package types
 //@   params a
 //@   returns (res, ok)
 //@   ensures same: a.AddrPort.ip.kind == 1 && a.AddrPort.port != 0 ==> ok && is4(res, a.AddrPort.ip.bits, a.AddrPort.port)
+
+// ---- C14: JSON and text forms of the leaf types ---------------------------------------------------
+// json.isstr(row(b), len(b)): the bytes are a JSON string; json.unq(...): its content (/verif/spec/json.spec)
+
+//@ macro hhmmText(s, h, m) = len(s) == 5 && s[0] == 48 + h / 10 && s[1] == 48 + h % 10 && s[2] == 58 && s[3] == 48 + m / 10 && s[4] == 48 + m % 10
+//@ macro hhmmShape(s) = len(s) == 5 && bcd.isdigit(s[0]) && bcd.isdigit(s[1]) && s[2] == 58 && bcd.isdigit(s[3]) && bcd.isdigit(s[4])
+//@ macro hhmmH(s) = 10 * (s[0] - 48) + (s[1] - 48)
+//@ macro hhmmM(s) = 10 * (s[3] - 48) + (s[4] - 48)
+//@ macro hhmmOK(s) = hhmmShape(s) && hhmmH(s) <= 24 && hhmmM(s) <= 59 && !(hhmmH(s) == 24 && hhmmM(s) != 0)
+
+//@ func (HHmm).String
+//@   params h
+//@   returns s
+//@   ensures text: 0 <= h.hours && h.hours <= 99 && 0 <= h.minutes && h.minutes <= 99 ==> hhmmText(s, h.hours, h.minutes)
+
+//@ func HHmmFromString
+//@   params s
+//@   returns (res, err)
+//@   ensures accept: hhmmOK(s) ==> err == nil && res != nil && res.hours == hhmmH(s) && res.minutes == hhmmM(s)
+//@   ensures reject: !hhmmOK(s) ==> err != nil
+
+//@ func (HHmm).MarshalJSON
+//@   params h
+//@   returns (b, err)
+//@   ensures json: 0 <= h.hours && h.hours <= 99 && 0 <= h.minutes && h.minutes <= 99 ==>
+//@                   err == nil && json.isstr(row(b), len(b)) && hhmmText(json.unq(row(b), len(b)), h.hours, h.minutes)
+
+//@ func (*HHmm).UnmarshalJSON
+//@   params h, bytes
+//@   returns err
+//@   requires recv: h != nil
+//@   modifies h
+//@   define S = json.unq(row(bytes), len(bytes))
+//@   ensures accept: json.isstr(row(bytes), len(bytes)) && hhmmOK(S) ==> err == nil && h.hours == hhmmH(S) && h.minutes == hhmmM(S)
+//@   ensures reject: json.isstr(row(bytes), len(bytes)) && !hhmmOK(S) ==> err != nil
+
+//@ func (*ControlState).UnmarshalJSON
+//@   params v, b
+//@   returns err
+//@   requires recv: v != nil
+//@   modifies v
+//@   define S = json.unq(row(b), len(b))
+//@   ensures open:    json.isstr(row(b), len(b)) && S == "normally open" ==> err == nil && *v == 1
+//@   ensures closed:  json.isstr(row(b), len(b)) && S == "normally closed" ==> err == nil && *v == 2
+//@   ensures control: json.isstr(row(b), len(b)) && S == "controlled" ==> err == nil && *v == 3
+//@   ensures reject:  json.isstr(row(b), len(b)) && S != "normally open" && S != "normally closed" && S != "controlled" ==> err != nil
+
+// decode(encode(v)) == v, through the contracts above / the real bodies
+//@ func lemmaTextHHmm
+//@   params h
+//@   returns (res, ok)
+//@   define INDOMAIN = 0 <= h.hours && h.hours <= 24 && 0 <= h.minutes && h.minutes <= 59 && !(h.hours == 24 && h.minutes != 0)
+//@   ensures same: INDOMAIN ==> ok && res.hours == h.hours && res.minutes == h.minutes
+//@ func lemmaJSONHHmm
+//@   params h
+//@   returns (res, ok)
+//@   define INDOMAIN = 0 <= h.hours && h.hours <= 24 && 0 <= h.minutes && h.minutes <= 59 && !(h.hours == 24 && h.minutes != 0)
+//@   ensures same: INDOMAIN ==> ok && res.hours == h.hours && res.minutes == h.minutes
+//@ func lemmaJSONControlState
+//@   params v
+//@   returns (res, ok)
+//@   ensures same: 1 <= v && v <= 3 ==> ok && res == v
+//@   ensures other: ok ==> 1 <= res && res <= 3
+
+//@ macro dateShape(s) = len(s) == 10 && bcd.isdigit(s[0]) && bcd.isdigit(s[1]) && bcd.isdigit(s[2]) && bcd.isdigit(s[3]) && s[4] == 45 && bcd.isdigit(s[5]) && bcd.isdigit(s[6]) && s[7] == 45 && bcd.isdigit(s[8]) && bcd.isdigit(s[9])
+//@ macro dateY(s) = 1000 * (s[0] - 48) + 100 * (s[1] - 48) + 10 * (s[2] - 48) + (s[3] - 48)
+//@ macro dateM(s) = 10 * (s[5] - 48) + (s[6] - 48)
+//@ macro dateD(s) = 10 * (s[8] - 48) + (s[9] - 48)
+//@ macro dateText(s, y, m, d) = len(s) == 10 && s[0] == 48 + y / 1000 && s[1] == 48 + (y / 100) % 10 && s[2] == 48 + (y / 10) % 10 && s[3] == 48 + y % 10 && s[4] == 45 &&
+//@                               s[5] == 48 + m / 10 && s[6] == 48 + m % 10 && s[7] == 45 && s[8] == 48 + d / 10 && s[9] == 48 + d % 10
+
+//@ func (Date).MarshalJSON
+//@   params d
+//@   returns (b, err)
+//@   define Y = time.year(d.abs, d.loc)
+//@   ensures zero: d.abs == 0 && d.ns == 0 ==> err == nil && json.isstr(row(b), len(b)) && len(json.unq(row(b), len(b))) == 0
+//@   ensures text: !(d.abs == 0 && d.ns == 0) && 0 <= Y && Y <= 9999 ==> err == nil && json.isstr(row(b), len(b)) &&
+//@                   dateText(json.unq(row(b), len(b)), Y, time.month(d.abs, d.loc), time.day(d.abs, d.loc))
+
+//@ func (*Date).UnmarshalJSON
+//@   params d, bytes
+//@   returns err
+//@   requires recv: d != nil
+//@   modifies d
+//@   define S = json.unq(row(bytes), len(bytes))
+//@   define ISSTR = json.isstr(row(bytes), len(bytes))
+//@   define JY = dateY(S)
+//@   define JM = dateM(S)
+//@   define JD = dateD(S)
+//@   ensures blank:  ISSTR && len(S) == 0 ==> err == nil && d.abs == 0 && d.ns == 0
+//@   ensures reject: ISSTR && len(S) != 0 && len(S) <= 10 && !(dateShape(S) && time.validDate(dateY(S), dateM(S), dateD(S))) ==> err != nil
+//@   ensures accept: ISSTR && dateShape(S) && time.validDate(dateY(S), dateM(S), dateD(S)) ==> err == nil
+//@   ensures civil:  ISSTR && dateShape(S) && time.validDate(dateY(S), dateM(S), dateD(S)) && time.dayExists(time.dayNo(dateY(S), dateM(S), dateD(S)), time.Local) ==>
+//@                     time.year(d.abs, d.loc) == dateY(S) && time.month(d.abs, d.loc) == dateM(S) && time.day(d.abs, d.loc) == dateD(S)
+
+//@ func lemmaJSONDate
+//@   params d
+//@   returns (res, ok)
+//@   define Y = time.year(d.abs, d.loc)
+//@   define M = time.month(d.abs, d.loc)
+//@   define D = time.day(d.abs, d.loc)
+//@   define ZERO = d.abs == 0 && d.ns == 0
+//@   ensures zero:  ZERO ==> ok && res.abs == 0 && res.ns == 0
+//@   ensures civil: !ZERO && 1 <= Y && Y <= 9999 && time.dayExists(time.dayNo(Y, M, D), time.Local) ==>
+//@                    ok && time.year(res.abs, res.loc) == Y && time.month(res.abs, res.loc) == M && time.day(res.abs, res.loc) == D
